@@ -231,7 +231,7 @@ func expoPayload(scraped, total int64, job int, tag string) string {
 		if i%2 == 0 {
 			fmt.Fprintf(&b, "keep_a%s{i=\"%d\"} %d\n", tag, i, i)
 		} else {
-			fmt.Fprintf(&b, "keep_b%s{i=\"%d\",z=\"y\"} 1\n", tag, i)
+			fmt.Fprintf(&b, "keep_b{i=\"%d\",z=\"y\"} 1\n", i) // a metric name all targets share
 		}
 	}
 	b.WriteString("\n")
@@ -352,7 +352,7 @@ func genSidecarCase(r *Rng, long bool) *SCase {
 	return c
 }
 
-var metricNameRe = regexp.MustCompile(`^(keep_a|keep_b|drop_c)_h[0-9]+_x*$`)
+var metricNameRe = regexp.MustCompile(`^((keep_a|drop_c)_h[0-9]+_x*|keep_b)$`)
 
 // set by runSidecarCase when the per-metric detail names something no target exposed
 var badMetricName string
